@@ -18,7 +18,11 @@ BREAKS = ['\n', '\r', '\r\n', '\x0b', '\x0c', '\x1c', '\x1d', '\x1e', '\x85', 'â
 WORDS = ['Create', 'a', 'bar', '#hash', 'key: value', '"quoted"', "'single'", '- item', '%(tmpl)s', 'x' * 90, 'Ã©', '{', '}', '[', ']',
          '|', '>', '&anchor', '*alias', '!tag', '@', '`', '---', '...', '\\', '\\n', 'rule:x', '"p": "@"', '#"p": "@"', 'colon:', ':', '?']
 NAME_CH = 'abcxyzABC019_:-./%()@!*[]{}=+,;<>~^|&$# '
-CHECKS = ['role:admin', '', '@', '!', 'rule:admin_or_owner', "role:a and (role:b or not 'x':%(k)s)", 'is_admin:True or project_id:%(project_id)s',
+LONG = ("(role:admin and system_scope:all) or (role:member and project_id:%(project_id)s and not 'locked':%(status)s) "
+        "or rule:admin_or_owner_with_a_rather_long_name")
+CHECKS = [LONG, 'rule:context_is_admin or ' + ' or '.join('role:role_number_%d' % i for i in range(9)),
+          "'a quite long literal':%(k)s and " + ' and '.join('is_admin:True' for _ in range(8)),
+          'role:admin', '', '@', '!', 'rule:admin_or_owner', "role:a and (role:b or not 'x':%(k)s)", 'is_admin:True or project_id:%(project_id)s',
           'http://h/%(x)s', "k:'v' and role:Ã©", 'role:a  or  role:b', '(role:a)']
 
 
@@ -103,9 +107,15 @@ def run(ctx, rep):
         for case in range(N):
             defs, specs = [], []
             for i in range(ctx.rng.randint(1, 5)):
-                d, s = make_default(ctx.rng, i)
+                try:
+                    d, s = make_default(ctx.rng, i)
+                except Exception:      # the constructor refused this combination (not what C17 is about)
+                    rep.stat('rejected_by_constructor')
+                    continue
                 defs.append(d)
                 specs.append(s)
+            if not defs:
+                continue
             excl = ctx.rng.random() < 0.3
             generator.get_policies_dict = lambda ns, defs=defs: {'ns': defs}
             out = os.path.join(tmp, 's.yaml')
